@@ -262,6 +262,13 @@ func (g glSpec) build() *astisub.Subtitles {
 // determinism do not depend on the text being representable).
 func genGLRaw(t *rapid.T) glSpec {
 	g := genGL(t, false)
+	// definitions that cues refer to without their being in the maps (e.g. after a caller removed them)
+	if len(g.Styles) > 0 && rapid.IntRange(0, 5).Draw(t, "detachedstyle") == 0 {
+		g.Styles[rapid.IntRange(0, len(g.Styles)-1).Draw(t, "detachedstyleid")].Detached = true
+	}
+	if len(g.Regions) > 0 && rapid.IntRange(0, 5).Draw(t, "detachedregion") == 0 {
+		g.Regions[rapid.IntRange(0, len(g.Regions)-1).Draw(t, "detachedregionid")].Detached = true
+	}
 	for ci := range g.Cues {
 		for li := range g.Cues[ci].Lines {
 			for ri := range g.Cues[ci].Lines[li].Runs {
@@ -367,6 +374,14 @@ func genGL(t *rapid.T, hostile bool) glSpec {
 		if g.Meta.STL != nil || !hostile {
 			// 24 h is the STL limit
 			c.Start, c.End = c.Start%(24*nsHour), c.End%(24*nsHour)
+		}
+		if hostile && rapid.IntRange(0, 7).Draw(t, "oddtimes") == 0 {
+			// nothing in the public types keeps a boundary from being negative or enormous
+			odd := []int64{-1, -nsMs, -999 * nsMs, -nsHour, -100 * nsHour, 1<<63 - 1, -1 << 63, 1000 * nsHour, 1 << 62}
+			c.Start = rapid.SampledFrom(odd).Draw(t, "oddstart")
+			if rapid.Bool().Draw(t, "oddboth") {
+				c.End = rapid.SampledFrom(odd).Draw(t, "oddend")
+			}
 		}
 		c.Index = rapid.IntRange(0, 3).Draw(t, "index")
 		if rapid.IntRange(0, 3).Draw(t, "hascomments") == 0 {
